@@ -28,8 +28,8 @@ def gen_history(g, idx, tier, want_meas=True):
     from checks import c01, c02
     r = g.r
     if idx % 7 == 3:
-        n = r.choice([7, 8, 9, 12])            # product-kernel switch of Eigen (aliasing rewrites) from 7-8 on
-        k = r.choice([1, 2])
+        n = r.choice([7, 8, 9, 12]) if idx != 3 else 12   # product-kernel switch of Eigen (aliasing rewrites) from 7-8 on
+        k = 1 if n > 9 else r.choice([1, 2])
         nsteps = r.choice([1, 2])
     else:
         n = idx % 5 + 1 if idx < 10 else r.randint(1, 5)
@@ -44,8 +44,8 @@ def gen_history(g, idx, tier, want_meas=True):
     hstyle = r.choice(["full", "full", "dyadic", "rankdef", "identityH", "diagonal", "tall", "illcond"]) if fstyle not in ("dyadic", "tinyscale") else ("dyadic" if fstyle == "dyadic" else "tinyscale")
     if hstyle == "dyadic":
         fstyle = "dyadic"
-    if fold:
-        fstyle = hstyle = "dyadic"
+    if fold or n >= 7:
+        fstyle = hstyle = "dyadic"                    # short mantissas: the exact rational side stays cheap
     # initial corrected belief
     if fstyle == "dyadic":
         Ps = [g.spd_dyadic(n) for _ in range(k)]
@@ -78,7 +78,7 @@ def gen_history(g, idx, tier, want_meas=True):
         meas = None
         if hasmeas:
             if m is None or r.random() < 0.4:         # the measurement dimension may change between steps
-                m = r.randint(1, 4) if n <= 6 else r.choice([2, 7, 9, 12])
+                m = r.randint(1, 4) if n <= 6 else r.choice([2, 7, 8])
                 if hstyle in ("identityH",):
                     m = n
             H, R = c01.gen_HR(g, hstyle if not (hstyle == "identityH" and m != n) else "full", n, m)
